@@ -477,6 +477,31 @@ fn real_histories(rep: &mut Report, rng: &mut Rng, n: usize) {
         std::fs::write(root.join("d1/mid.txt"), b"0").unwrap();
         std::fs::write(root.join("d1/d2/deep.a"), b"0").unwrap();
         std::fs::write(root.join("d1/noext"), b"0").unwrap();
+        // A second, canonical root that only ever holds the sentinel files: both roots are watched by one
+        // inotify instance, whose queue is FIFO, so a delivered sentinel proves that every earlier
+        // notification of the history went through the handler (logical barrier, also for a root
+        // whose notifications are all lost).
+        let ctl_dir = crate::util::scratch_dir("c12s");
+        let ctl = ctl_dir.canonicalize().unwrap();
+        // how the root is spelled when handed to `watch`
+        let spelling = ["canonical", "relative", "dot-relative", "symlink", "dotdot"][if h % 2 == 0 { 0 } else { (h / 2) % 5 }];
+        let old_cwd = std::env::current_dir().unwrap();
+        let link = dir.with_extension("lnk");
+        let given: PathBuf = match spelling {
+            "relative" | "dot-relative" => {
+                std::env::set_current_dir(root.parent().unwrap()).unwrap();
+                let name = PathBuf::from(root.file_name().unwrap());
+                if spelling == "relative" { name } else { Path::new(".").join(name) }
+            }
+            "symlink" => {
+                let _ = std::fs::remove_file(&link);
+                std::os::unix::fs::symlink(&root, &link).unwrap();
+                link.clone()
+            }
+            "dotdot" => root.join("d1").join("..") ,
+            _ => root.clone(),
+        };
+        rep.seen("root_spellings", spelling);
         let (tx, rx) = event_channel();
         let mut b = match FsWatcherBuilder::new() {
             Ok(b) => b,
@@ -485,9 +510,14 @@ fn real_histories(rep: &mut Report, rng: &mut Rng, n: usize) {
                 return;
             }
         };
-        if let Err(e) = b.watch(root.clone()) {
-            rep.inconclusive(&format!("cannot watch the scratch directory: {e}"));
-            return;
+        let order = rng.chance(1, 2);
+        for first in [order, !order] {
+            let w = if first { given.clone() } else { ctl.clone() };
+            if let Err(e) = b.watch(w) {
+                rep.inconclusive(&format!("cannot watch the scratch directory: {e}"));
+                let _ = std::env::set_current_dir(&old_cwd);
+                return;
+            }
         }
         b.build(tx);
         let nops = rng.range(1, 5);
@@ -605,7 +635,7 @@ fn real_histories(rep: &mut Report, rng: &mut Rng, n: usize) {
             }
             // sentinel: a later event on a dedicated file; inotify and the channel are FIFO
             let sentinel = format!("sentinel{k}.s");
-            std::fs::write(root.join(&sentinel), b"s").unwrap();
+            std::fs::write(ctl.join(&sentinel), b"s").unwrap();
             let sent = (false, format!("sentinel{k}"), "s".to_string());
             allowed.insert(sent.clone());
             allowed.insert((true, String::new(), String::new()));
@@ -635,7 +665,8 @@ fn real_histories(rep: &mut Report, rng: &mut Rng, n: usize) {
                 all_ok = false;
                 break;
             }
-            let scen = json!({"kind": "real", "history": h, "operation": format!("{op:?}"), "all_operations": format!("{ops:?}")});
+            let scen = json!({"kind": "real", "history": h, "operation": format!("{op:?}"), "all_operations": format!("{ops:?}"),
+                "root_given_to_watch": given.display().to_string(), "root_spelling": spelling, "second_root": "canonical directory holding the sentinels"});
             let missing: Vec<String> = required.difference(&got).map(show).collect();
             let extra: Vec<String> = got.difference(&allowed).map(show).collect();
             let place = match op {
@@ -657,7 +688,7 @@ fn real_histories(rep: &mut Report, rng: &mut Rng, n: usize) {
                 };
                 rep.violation(
                     what,
-                    &format!("C12/{family}:{place}:{what}"),
+                    &format!("C12/{family}:{place}:{what}{}", if spelling == "canonical" { String::new() } else { format!(":{spelling}-root") }),
                     json!({"missing": missing, "delivered": got.iter().map(show).collect::<Vec<_>>()}),
                     scen.clone(),
                 );
@@ -678,7 +709,10 @@ fn real_histories(rep: &mut Report, rng: &mut Rng, n: usize) {
             rep.sample(json!({"kind": "real history", "operations": format!("{ops:?}")}));
         }
         drop(rx);
+        let _ = std::env::set_current_dir(&old_cwd);
+        let _ = std::fs::remove_file(&link);
         let _ = std::fs::remove_dir_all(dir);
+        let _ = std::fs::remove_dir_all(ctl_dir);
     }
 }
 
@@ -710,6 +744,7 @@ pub fn run(args: &Args) -> Report {
     crate::util::quiet_panics(false);
     rep.floor_set("event_kinds", 16);
     rep.floor_set("real_op_kinds", 4);
+    rep.floor_set("root_spellings", if args.nshards > 1 { 3 } else { 5 });
     rep.floor("real_operations", rep.get("real_operations"), 20);
     rep
 }
